@@ -16,12 +16,16 @@
    (C05_words_neither_glued_nor_split) -- and on the list of lines only blank
    lines disappear: the lines that hold a word are the same, in order, and
    the number of lines does not grow, so no paragraph break is invented
-   (C05_no_line_invented).  Not proved: that exactly the lines emptied by
+   (C05_no_line_invented).  No gluing behind a macro argument
+   (C05_skip_stops_at_argument_end): the skip of white space behind a control
+   word stops at an action token, and the replacement of #n ends with one, so
+   the blank behind the closing brace of an argument survives a control word
+   as the last token of the argument.  Not proved: that exactly the lines emptied by
    markup are removed and that the expander leaves an action token for every
    construct that vanishes; decided on the C05 stream by the paragraph
    oracle of harness/props/c05.py and the correspondence run. *)
 From Coq Require Import Relations.
-From YV Require Import PyBase CharTables Token Rpal RpalProofs RpalLines.
+From YV Require Import PyBase CharTables Token Rpal PState Parser Expand RpalProofs RpalLines ExpandSites.
 Open Scope Z_scope.
 
 Theorem C05_pass_total : forall is_space tokens,
@@ -69,6 +73,27 @@ Theorem C05_no_line_invented : forall is_space tokens r,
   (length (lines (flatt r)) <= length (lines (flatt tokens)))%nat.
 Proof. exact rpal_solid_lines. Qed.
 Print Assumptions C05_no_line_invented.
+
+Theorem C05_skip_stops_at_argument_end : forall a b,
+  is_action a = true -> skip_ctl (a :: b) = a :: b.
+Proof. exact skip_ctl_at_action. Qed.
+Print Assumptions C05_skip_stops_at_argument_end.
+
+(* an undeclared control word in front of the end of an argument: nothing
+   behind it is consumed *)
+Theorem C05_control_word_at_argument_end : forall T rd rec fuel st t a b math,
+  assoc (txt t) (macros st) = None -> is_action a = true ->
+  exists st', expand_macro T rd rec fuel st (a :: b) t math
+              = Ok (st', ([ActionT (pos t)], a :: b)).
+Proof.
+  exact (fun T rd rec fuel st t a b math Hm Ha =>
+    match expand_macro_undeclared T rd rec fuel st (a :: b) t math Hm with
+    | ex_intro _ st' (conj E _) =>
+        ex_intro _ st' (eq_trans E (f_equal (fun r => Ok (st', ([ActionT (pos t)], r)))
+                                            (skip_ctl_at_action a b Ha)))
+    end).
+Qed.
+Print Assumptions C05_control_word_at_argument_end.
 
 (* the notions, on an example: two lines emptied by labels go, the words and
    the blank line of the source stay *)
